@@ -1943,6 +1943,11 @@ class NPProxy:
     def copy(self, x, **k):
         return x.copy() if isinstance(x, SymArray) else np.copy(x)
 
+    def ndenumerate(self, a):
+        if isinstance(a, SymArray):
+            return ((idx, a._a[idx]) for idx in np.ndindex(*a.shape))
+        return np.ndenumerate(a)
+
     def repeat(self, a, repeats, axis=None):
         """always a SymArray (kernels store symbolic values into the repeated array afterwards)"""
         if isinstance(a, Sym):
